@@ -14,9 +14,13 @@
  *             x<N>          exit with status N
  *             kSEGV|kKILL|kTERM|kABRT   raise the signal on itself
  *             i             ignore SIGTERM from now on
+ *             D<name>       unlink $STUB_BIN/<name> (makes a later posix_spawnp of that tool fail)
+ * The start line also lists the descriptors open at start ("fds": a tool started by the driver
+ * must see 0, 1, 2 only - the FD_CLOEXEC / close discipline of spawnphase).
  *             default: rall,w16,x0
  */
 #define _GNU_SOURCE
+#include <dirent.h>
 #include <errno.h>
 #include <fcntl.h>
 #include <signal.h>
@@ -27,6 +31,8 @@
 #include <sys/stat.h>
 #include <time.h>
 #include <unistd.h>
+
+static int g_lfd = -1;
 
 static long
 now_ms(void)
@@ -66,6 +72,29 @@ jfd(FILE *f, const char *name, int fd)
 		       S_ISCHR(st.st_mode) ? (isatty(fd) ? "tty" : "chr") : S_ISSOCK(st.st_mode) ? "sock" : "other";
 	}
 	fprintf(f, "\"%s\":{\"dev\":%llu,\"ino\":%llu,\"kind\":\"%s\"}", name, dev, ino, kind);
+}
+
+static void
+jfds(FILE *f)
+{
+	DIR *d = opendir("/proc/self/fd");
+	struct dirent *e;
+	int first = 1, self = d ? dirfd(d) : -1, lf = fileno(f);
+
+	fputs("\"fds\":[", f);
+	while (d && (e = readdir(d))) {
+		int n;
+		if (e->d_name[0] == '.')
+			continue;
+		n = atoi(e->d_name);
+		if (n == self || n == lf || n == g_lfd)
+			continue;
+		fprintf(f, "%s%d", first ? "" : ",", n);
+		first = 0;
+	}
+	if (d)
+		closedir(d);
+	fputs("]", f);
 }
 
 static int
@@ -139,6 +168,7 @@ main(int argc, char *argv[])
 	if (logpath) {
 		lfd = open(logpath, O_WRONLY | O_APPEND | O_CREAT | O_CLOEXEC, 0644);
 		if (lfd >= 0) {
+			g_lfd = lfd;
 			flock(lfd, LOCK_EX);
 			idx = count_role(logpath, role);
 			lf = fdopen(dup(lfd), "a");
@@ -158,6 +188,8 @@ main(int argc, char *argv[])
 			jfd(lf, "stdin", 0);
 			fputc(',', lf);
 			jfd(lf, "stdout", 1);
+			fputc(',', lf);
+			jfds(lf);
 			fprintf(lf, ",\"t\":%ld}\n", now_ms());
 			fclose(lf);
 			flock(lfd, LOCK_UN);
@@ -222,6 +254,15 @@ main(int argc, char *argv[])
 		case 'i':
 			signal(SIGTERM, SIG_IGN);
 			break;
+		case 'D': {
+			const char *bin = getenv("STUB_BIN");
+			char path[4096];
+			if (bin) {
+				snprintf(path, sizeof path, "%s/%s", bin, tok + 1);
+				unlink(path);
+			}
+			break;
+		}
 		case 'k': {
 			int sig = strcmp(tok + 1, "SEGV") == 0 ? SIGSEGV : strcmp(tok + 1, "KILL") == 0 ? SIGKILL :
 			          strcmp(tok + 1, "ABRT") == 0 ? SIGABRT : SIGTERM;
